@@ -144,7 +144,7 @@ def cases(tier, seed):
     q = tier == "quick"
     out = []
     for name in FORMS:
-        out.append(dict(kind="bfs", form=name, depth=(4 if q else 5), tier=tier))
+        out.append(dict(kind="bfs", form=name, depth=(4 if q else (6 if FORMS[name]["k"] == 1 else 5)), tier=tier))
     out.append(dict(kind="sympy", tier=tier))
     return out
 
